@@ -535,6 +535,13 @@ class ClockScheduler():
     def add(self, time, clock_task):
         self.queue.add(time, clock_task)
 
+    def rekey(self, clock):
+        # The beats/seconds map of clock has changed, pending tasks keep
+        # their beat (rt queues are keyed by beats).
+        for _, clock_task in list(self.queue):
+            if clock_task.clock is clock:
+                self.add(clock.beats2secs(clock_task.beats), clock_task)
+
     def reset(self):
         self.queue.clear()
 
@@ -544,6 +551,7 @@ class ClockTask():
         self.clock = clock
         self.task = task
         self.scheduler = scheduler
+        self.beats = beats
         scheduler.add(clock.beats2secs(beats), self)
 
     # As rt clocks' queues, the scheduler keeps one entry by task and clock.
@@ -561,7 +569,8 @@ class ClockTask():
             beats = self.clock.secs2beats(time)
             delta = self.task.__awake__(self.clock)
             if isinstance(delta, (int, float)) and not isinstance(delta, bool):
-                self.scheduler.add(self.clock.beats2secs(beats + delta), self)
+                self.beats = beats + delta
+                self.scheduler.add(self.clock.beats2secs(self.beats), self)
         except stm.StopStream:
             pass
         except Exception:
@@ -966,7 +975,7 @@ class TempoClock(Clock, metaclass=MetaTempoClock):
         # en tempo_
         mdl.NotificationCenter.notify(self, 'tempo')
         if self.mode == _libsc3.main.NRT_MODE:
-            return
+            _libsc3.main._clock_scheduler.rekey(self)
         else:
             with self._sched_cond:
                 self._sched_cond.notify()  # NOTE: is notify_one in C++.
@@ -995,7 +1004,7 @@ class TempoClock(Clock, metaclass=MetaTempoClock):
         # etempo_
         mdl.NotificationCenter.notify(self, 'tempo')
         if self.mode == _libsc3.main.NRT_MODE:
-            return
+            _libsc3.main._clock_scheduler.rekey(self)
         else:
             with self._sched_cond:
                 self._sched_cond.notify()  # NOTE: is notify_one in C++.
@@ -1053,7 +1062,7 @@ class TempoClock(Clock, metaclass=MetaTempoClock):
         self._base_beats = value
         self._beat_dur = 1.0 / self._tempo
         if self.mode == _libsc3.main.NRT_MODE:
-            return
+            _libsc3.main._clock_scheduler.rekey(self)
         else:
             with self._sched_cond:
                 self._sched_cond.notify()  # NOTE: is notify_one in C++
